@@ -6,6 +6,7 @@ use crate::common::where_predicates_bool::{
     WherePredicates, WherePredicatesOrBool,
 };
 
+#[derive(Clone)]
 pub(crate) enum Bound {
     Disabled,
     Auto,
